@@ -355,6 +355,150 @@ def direct_types(ctx, rng, reps):
                     ctx.violation("direct", "direct-type-residue-after-failures", {"type": name, "endian": endian})
 
 
+def long_encodings(ctx, rng, reps):
+    """Values whose encoding is long: LEB128 numbers of 1 to 40 bytes (far beyond 128 bits) and arrays of 129 to 1000
+    packed / byte-sliced entries, directly and in structures (fixed and data-supplied counts, last member or not):
+    every prefix (LEB128) / every kind of cut (entry boundaries, inside an entry, the header) must raise EOFError, the
+    full input gives the value, and a read call that delivers half (an entry-aligned half) or nothing or raises never
+    yields a value.  The expected values come from an own encoder / int.from_bytes."""
+    import io
+    import struct as pystruct
+
+    def uleb(v):
+        out = bytearray()
+        while True:
+            b = v & 0x7F
+            v >>= 7
+            out.append(b | (0x80 if v else 0))
+            if not v:
+                return bytes(out)
+
+    def sleb(v):
+        out = bytearray()
+        while True:
+            b = v & 0x7F
+            v >>= 7
+            done = (v == 0 and not b & 0x40) or (v == -1 and b & 0x40)
+            out.append(b | (0 if done else 0x80))
+            if done:
+                return bytes(out)
+
+    def attempt(fn):
+        try:
+            return ("ok", fn())
+        except SpinWatchdog:
+            return ("spin", None)
+        except Exception as e:  # noqa: BLE001
+            return ("err", e)
+
+    def judge_cut(det, r, what):
+        if r[0] == "ok":
+            ctx.violation("long", f"{what}:value-returned-from-truncated-input", dict(det, got=repr(r[1])[:160]))
+        elif r[0] == "spin":
+            ctx.violation("long", f"{what}:spins-on-empty-reads", det)
+        elif not isinstance(r[1], EOFError):
+            ctx.violation("long", f"{what}:truncation-raises-{type(r[1]).__name__}-not-EOFError", det)
+        else:
+            ctx.event("long_cut_EOFError")
+
+    for rep in range(reps):
+        endian = rng.choice("<>")
+        compiled = rng.random() < 0.5
+        cs = lib.load("struct SU { uleb128 v; uint8 t; };\nstruct SI { uint8 h; ileb128 v; };", endian, False, compiled)
+        # (a) LEB128 of every length
+        for L in list(range(1, 41)) if (ctx.thorough or rep == 0) else rng.sample(range(1, 41), 12):
+            for signed in (False, True):
+                mag = rng.randrange(1 << (7 * (L - 1)), 1 << (7 * L)) if L > 1 else rng.randrange(0, 128)
+                if signed:
+                    v = rng.choice([mag >> 1, -(mag >> 1) - 1]) if L > 1 else rng.randrange(-64, 64)
+                    raw, T, S, pre = sleb(v), cs.ileb128, cs.SI, b"\x07"
+                else:
+                    v, T, S, pre = mag, cs.uleb128, cs.SU, b""
+                    raw = uleb(v)
+                ctx.cell("long-leb128" if len(raw) >= 19 else "short-leb128")
+                det = {"workload": "long-encodings", "type": T.__name__, "value": str(v), "raw": raw.hex(), "endian": endian}
+                ctx.evaluation(("long-leb", T.__name__, raw.hex()))
+                full = attempt(lambda: int(T(raw + b"\xA5")))
+                sfull = attempt(lambda: int(S(pre + raw + b"\x2A\xA5").v))
+                if full != ("ok", v) or sfull != ("ok", v):
+                    ctx.violation("long", "leb128:complete-input-not-decoded", dict(det, got=repr((full, sfull))[:200]))
+                    continue
+                for k in range(len(raw)):
+                    cut = raw[:k]
+                    for form, fn in (("bytes", lambda: T(cut)), ("stream", lambda: T(io.BytesIO(cut))),
+                                     ("recording", lambda: T(RecordingStream(cut))), ("field", lambda: S(pre + cut))):
+                        ctx.evaluation(("long-leb-cut", T.__name__, raw.hex(), k, form))
+                        judge_cut(dict(det, cut=k, form=form), attempt(fn), "leb128")
+                rec = RecordingStream(raw + b"\xA5")
+                T(rec)
+                for j in range(len(rec.reads())):
+                    for kind in ("empty", "raise"):
+                        fs = FaultyStream(raw + b"\xA5", 0, j, kind)
+                        r = attempt(lambda: int(T(fs)))
+                        ctx.evaluation(("long-leb-fault", T.__name__, raw.hex(), j, kind))
+                        if r[0] == "ok":
+                            ctx.violation("long", "leb128:value-although-a-read-call-failed", dict(det, fault=(j, kind), got=str(r[1])))
+                        else:
+                            ctx.event(f"long_faults:{kind}")
+        # (b) long arrays
+        elems = {"uint8": (1, "B"), "int8": (1, "b"), "uint16": (2, "H"), "uint32": (4, "I"), "uint64": (8, "Q"), "double": (8, "d"),
+                 "int24": (3, None), "int16": (2, "h")}
+        for et in (list(elems) if (ctx.thorough or rep == 0) else rng.sample(list(elems), 3)):
+            size, ch = elems[et]
+            for n in rng.sample([129, 130, 200, 255, 256, 257, 512, 1000], 2 if not ctx.thorough else 5):
+                if ch == "d":
+                    vals = [float(rng.randrange(-1000, 1000)) / 4 for _ in range(n)]
+                    body = pystruct.pack(f"{endian}{n}d", *vals)
+                else:
+                    sg = et.startswith("int")
+                    vals = [rng.randrange(-(1 << (size * 8 - 1)), 1 << (size * 8 - 1)) if sg else rng.randrange(1 << (size * 8)) for _ in range(n)]
+                    body = b"".join(x.to_bytes(size, "little" if endian == "<" else "big", signed=sg) for x in vals)
+                hdr = n.to_bytes(2, "little" if endian == "<" else "big")
+                crc = bytes([0xC1, 0xC2, 0xC3, 0xC4])
+                cl = lib.load(f"struct FX {{ {et} v[{n}]; }};\nstruct CT {{ uint16 n; {et} v[n]; }};\n"
+                              f"struct CM {{ uint16 n; {et} v[n]; char crc[4]; }};\nstruct C2 {{ uint16 n; {et} v[n / 2][2]; }};",
+                              endian, False, compiled)
+                forms = [("direct", getattr(cl, et)[n], body, lambda o: list(o), 0),
+                         ("fixed-member", cl.FX, body, lambda o: list(o.v), 0),
+                         ("counted-tail", cl.CT, hdr + body, lambda o: list(o.v), 2),
+                         ("counted-middle", cl.CM, hdr + body + crc, lambda o: list(o.v) + [o.crc], 2)]
+                if n % 2 == 0:
+                    forms.append(("counted-rows", cl.C2, hdr + body, lambda o: [x for row in o.v for x in row], 2))
+                for form, T, data, get, h in forms:
+                    want = vals + ([crc] if form == "counted-middle" else [])
+                    det = {"workload": "long-encodings", "type": f"{et}[{n}]", "form": form, "endian": endian, "compiled": compiled}
+                    ctx.cell(f"long-array:{form}")
+                    ctx.evaluation(("long-array", et, n, form, endian, compiled))
+                    base = attempt(lambda: get(T(data + b"\xA5\x5A")))
+                    if base != ("ok", want):
+                        ctx.violation("long", "long-array:complete-input-not-read", dict(det, got=repr(base)[:200]))
+                        continue
+                    end = len(data)
+                    cuts = {0, 1, h, h + size, h + 64 * size, h + 127 * size, h + 128 * size, h + 129 * size, h + (n // 2) * size,
+                            h + (n - 1) * size, h + (n - 1) * size + max(1, size - 1), end - 1, h + 128 * size + 1, h + size * n}
+                    for k in sorted(c for c in cuts if 0 <= c < end):
+                        cut = data[:k]
+                        for kind, fn in (("bytes", lambda: get(T(cut))), ("stream", lambda: get(T(io.BytesIO(cut)))),
+                                         ("recording", lambda: get(T(RecordingStream(cut))))):
+                            ctx.evaluation(("long-array-cut", et, n, form, endian, compiled, k, kind))
+                            judge_cut(dict(det, cut=k, of=end, input=kind), attempt(fn), "long-array")
+                    rec = RecordingStream(data + b"\xA5\x5A")
+                    T(rec)
+                    for j in range(min(len(rec.reads()), 6)):
+                        for kind in ("empty", "half", "raise"):
+                            fs = FaultyStream(data + b"\xA5\x5A", 0, j, kind)
+                            r = attempt(lambda: get(T(fs)))
+                            if fs.fired is None or (kind != "raise" and fs.fired[2] == fs.fired[3]):
+                                continue
+                            ctx.evaluation(("long-array-fault", et, n, form, endian, compiled, j, kind))
+                            ctx.event(f"long_faults:{kind}")
+                            if r[0] == "ok":
+                                ctx.violation("long", "long-array:value-although-a-read-call-was-short-or-failed",
+                                              dict(det, fault=(j, kind), fired=repr(fs.fired), got=repr(r[1])[:120]))
+                    if attempt(lambda: get(T(data))) != ("ok", want):
+                        ctx.violation("long", "long-array:residue-after-failures", det)
+
+
 def gen_opts(rng, thorough):
     o = dict(dyn_unions=rng.random() < 0.3, max_len=3)
     if thorough:
@@ -369,6 +513,8 @@ def run(ctx):
         eof_elements(ctx, ctx.rng("eof-elements"), 2 if not ctx.thorough else 20)
     if ctx.shard == 4:
         single_char_member_at_offset(ctx)
+    if ctx.shard % 8 == 7:
+        long_encodings(ctx, ctx.rng("long-encodings"), 1 if not ctx.thorough else 6)
     if ctx.shard % 8 == 6:
         counted_tails(ctx, ctx.rng("counted-tails"), 2 if not ctx.thorough else 20)
     for i in range(N_CASES[ctx.tier]):
@@ -384,6 +530,10 @@ def run(ctx):
 
 
 def replay(ctx, detail):
+    if detail.get("workload") == "long-encodings":
+        print(detail)
+        long_encodings(ctx, ctx.rng("long-encodings"), 2)
+        return
     if detail.get("workload") == "single-char-member-at-offset":
         print(detail)
         single_char_member_at_offset(ctx)
